@@ -43,6 +43,10 @@ func class(v valgen.Val) string {
 func roundTrip(v valgen.Val) (f *vh.Failure) {
 	defer func() {
 		if r := recover(); r != nil {
+			if v.Null {
+				f = vh.Failf("C04/null-representation-not-encodable", "panic for NULL %s: %v", valgen.TW{T: v.T, W: v.W}, r)
+				return
+			}
 			f = vh.Failf(class(v)+"-panic", "panic for %s %s: %v", valgen.TW{T: v.T, W: v.W}, valgen.Key(v), r)
 		}
 	}()
@@ -60,6 +64,13 @@ func roundTrip(v valgen.Val) (f *vh.Failure) {
 	}
 	if err := valgen.Match(v, got); err != nil {
 		return vh.Failf(class(v), "%s: %v (wire % x)", dt, err, head(bs))
+	}
+	if v.Null {
+		// the library's own representation of NULL must encode to zero length again
+		bs2, err := dt.Bytes(le, got, valgen.BytesLength(v))
+		if err != nil || len(bs2) != 0 {
+			return vh.Failf("C04/null-representation-not-encodable", "%s: decoded NULL (%T) re-encodes to % x, err %v; want zero length", dt, got, head(bs2), err)
+		}
 	}
 	if !v.Null {
 		// tick-level fixed point: what was decoded encodes to the same bytes
